@@ -2,7 +2,9 @@ package rules
 
 import (
 	"fmt"
+	"go/token"
 	"go/types"
+	"strconv"
 	"strings"
 
 	"golang.org/x/tools/go/ssa"
@@ -204,6 +206,48 @@ func C09(ctx *core.Ctx, r *core.Report) {
 			}
 		}
 		r.Ob("clearing-covers-kinds", "node.editor.clearChoiceCase", ctx.Pos(clearCase.Pos()), ok, msg)
+		// the walk over the old case's members ends early only with a failure
+		if len(cf) == 1 {
+			loop := loopBlocks(cf[0].Block())
+			var header *ssa.BasicBlock
+			for b := range loop {
+				if header == nil || b.Dominates(header) {
+					header = b
+				}
+			}
+			nr := 0
+			for _, ret := range core.Returns(clearCase) {
+				inLoop := false
+				for b := range loop {
+					if b != header && b.Dominates(ret.Block()) {
+						inLoop = true
+					}
+				}
+				if !inLoop {
+					continue
+				}
+				nr++
+				ops := core.RetOperands(ret)
+				okr, why := false, "returns from inside the walk over the old case's members"
+				if len(ops) == 1 {
+					if _, isCall := ops[0].(*ssa.Call); isCall {
+						okr = true // a freshly made error
+					}
+					for _, pc := range core.PathConds(ret.Block()) {
+						if b, isB := pc.V.(*ssa.BinOp); isB && b.Op == token.NEQ && pc.True && (b.X == ops[0] && core.IsNilConst(b.Y)) {
+							okr = true
+						}
+					}
+				}
+				key := "node.editor.clearChoiceCase/return"
+				if nr > 1 {
+					key += "#" + strconv.Itoa(nr)
+				}
+				r.Ob("clearing-visits-every-member", key, ctx.Pos(ret.Pos()), okr,
+					why+" with a value that is not known to be a failure: when it is nil the remaining members of the old case are left in place, so two cases of one choice hold data")
+			}
+			r.Floor("clearing-visits-every-member", nr, 2)
+		}
 	}
 
 	// 3. reads descend only into the chosen case
